@@ -457,3 +457,8 @@ def run(chk, facts, tier):
     c11_record.check(chk, facts)
     from rules import c03_errors
     c03_errors.check(chk, facts)
+    from rules import c11_scope
+    c11_scope.check(chk, facts)
+    # ... and over entity stores its entity validation accepts: every component of an entity (all ancestors included) is checked
+    from rules import C11 as _c11
+    _c11.entity_components(chk, facts)
